@@ -351,9 +351,10 @@ class LibsvmReader(Filter[Iterable[str], Iterable[Tuple[MutableMapping,Any]]]):
 
         for line in filter(None,lines):
 
-            items  = line.strip().split(' ')
+            #the tokens of a line are separated by blanks or tabs (any number of them)
+            items  = line.split()
 
-            no_label_line = items[0] == '' or ":" in items[0]
+            no_label_line = not items or ":" in items[0]
 
             if not no_label_line:
                 labels = items[0].split(',')
